@@ -7,9 +7,9 @@ import (
 	stdnet "net"
 	"time"
 
+	vp "github.com/Tnze/go-mc/internal/zzvp"
 	"github.com/Tnze/go-mc/net/CFB8"
 	pk "github.com/Tnze/go-mc/net/packet"
-	vp "github.com/Tnze/go-mc/internal/zzvp"
 )
 
 // vpPipeEnd is one end of an in-memory duplex connection. When a Read finds
@@ -143,4 +143,3 @@ func vpExchange(a, b *Conn) {
 		vp.Assert(q.Data[i] == p3.Data[i], "reverse direction intact")
 	}
 }
-
